@@ -54,7 +54,7 @@ let run_M caseno tk =
   let pat = take_n tk r (fun tk -> opt_of_tok (next tk)) in
   let ctor = next_int tk in
   let es = take_n tk r next_z in
-  let ss = if lay = 2 then take_n tk r next_z else [] in
+  let ss = if lay = 2 || ctor = 4 then take_n tk r next_z else [] in
   let dpv = if ctor = 2 then next_z tk else Z0 in
   let nidx = next_int tk in
   let idxs = if nidx < 0 then None else Some (take_n tk nidx (fun tk -> take_n tk r next_z)) in
